@@ -17,8 +17,9 @@ import tlsref
 from engine import Stage, Check, StageResult
 
 PID = "C03"
-REMOVING = {"delete", "cut_before", "cut_after", "drop_prefix", "keys_remove", "unknown_suite", "shorten", "foreign"}     # only remove information / add foreign traffic
+REMOVING = {"delete", "delete_nth_data", "cut_before", "cut_after", "drop_prefix", "keys_remove", "unknown_suite", "shorten", "foreign"}     # only remove information / add foreign traffic
 POSITION_FAULTS = ["delete", "cut_before", "cut_after", "drop_prefix", "flip", "overwrite", "shorten", "header"]
+
 
 
 def flow_seq(o, ep, proto):
@@ -39,6 +40,14 @@ def apply_fault(b, fault, rnd):
     pkts = list(b.pkts)
     keylog = list(b.keylog)
     vic = [i for i, p in enumerate(pkts) if p.conn == 0]
+    if kind == "delete_nth_data":
+        # the nth application-data segment (behind the first two, which belong to the short exchange in front) of one direction
+        cand = [i for i in vic if pkts[i].payload and pkts[i].srv == bool(fault["dir"]) and pkts[i].payload[:1] == b"\x17"]
+        if len(cand) <= 1 + fault["nth"]:
+            return pkts, keylog, "no victim packets"
+        i = cand[1 + fault["nth"]]
+        del pkts[i]
+        return pkts, keylog, f"delete@{i}(data segment {1 + fault['nth']} of {len(cand)})"
     if kind in POSITION_FAULTS:
         if not vic:
             return pkts, keylog, "no victim packets"
@@ -354,6 +363,27 @@ def aborted_handshake_specs():
     return out
 
 
+def long_victim_specs():
+    """a packet lost early in a LONG flow: 60 records (one per segment) in one direction behind the loss, so that whatever a reassembler
+    does after waiting a long time for the missing bytes (give up, resynchronise, drop its buffer) is reached; CBC with explicit and
+    chained IVs, RC4, AEAD, TLS 1.3"""
+    out = []
+    i = 0
+    for ver, code in ((tlsref.TLS11, 0x002F), (tlsref.TLS12, 0x003C), (tlsref.TLS10, 0x0035), (tlsref.SSL30, 0x000A), (tlsref.TLS10, 0x0005),
+                      (tlsref.TLS12, 0xC02F), (tlsref.TLS13, 0x1301)):
+        for d in (0, 1):
+            hist = [[d, 40, 0], [1 - d, 33, 0]] + [[d, 50 + (k % 7), 0] for k in range(60)] + [[1 - d, 9, 0]]
+            victim = {"kind": "tls", "seed": 9100 + i, "version": ver, "suite": code, "history": hist, "cert_len": 40,
+                      "ep": scenario.default_ep(0), "tcp": {"mode": "rec", "syn": bool(i % 2), "acks": bool(i % 3 == 0), "mss": 1400}}
+            by = {"kind": "tls", "seed": 9200 + i, "version": tlsref.TLS12, "suite": 0xC02F, "history": [[0, 10, 0], [1, 20, 0]], "cert_len": 40,
+                  "ep": scenario.default_ep(1), "tcp": {"mode": "rec", "syn": False}}
+            # the victim's data packets of direction d: the loss hits the 1st, 2nd or 5th of the long run
+            for nth in (0, 1, 4):
+                out.append({"conns": [victim, by], "order": [0, 0, 0, 1], "tseed": 7 + i, "fault": {"kind": "delete_nth_data", "dir": d, "nth": nth}})
+            i += 1
+    return out
+
+
 def hello_specs(tier):
     out = []
     combos = [(0x002F, tlsref.TLS10), (0x009C, tlsref.TLS12), (0x1301, tlsref.TLS13), (0x000A, tlsref.SSL30)]
@@ -575,6 +605,7 @@ def stages(tier):
         Stage("all-positions", evaluate_positions, strategy=lambda t: base_scenario(small=True), examples=32 if quick else 600, shrink=False),
         Stage("hello-bitflips", evaluate_hello_bits, specs=hello_specs(tier), chunksize=1),
         Stage("aborted-handshakes", evaluate_single, specs=aborted_handshake_specs()),
+        Stage("loss-early-in-a-long-flow", evaluate_single, specs=long_victim_specs()),
         Stage("all-key-subsets", evaluate_key_subsets, specs=key_subset_specs(tier), chunksize=1),
         Stage("single-faults", evaluate_single, strategy=lambda t: single_fault_scenario(), examples=500 if quick else 30000),
         Stage("udp-datagrams", evaluate_datagrams, strategy=datagram_strategy, examples=2000 if quick else 100000),
